@@ -57,7 +57,8 @@ def carrier_api():
                messages=[dict(name='Dep', fields=[dict(name='name'), dict(name='count', type='int32')]),
                          dict(name='DepReq', fields=[dict(name='name'), dict(name='count', type='int32'),
                                                      dict(name='tags', repeated=True), dict(name='labels', type='map:string,string'),
-                                                     dict(name='kind', type='enum:.other.dep.v1.DepKind'), dict(name='blob', type='bytes')])])
+                                                     dict(name='kind', type='enum:.other.dep.v1.DepKind'), dict(name='blob', type='bytes'),
+                                                     dict(name='request_id', uuid4=True)])])
 
     def m(name, verb, out='Thing', sigs=(), cs=False, ss=False, inp='Req'):
         http = [] if cs else [dict(verb='post', uri=f'/v1/things:{verb}', body='*')]
@@ -85,7 +86,9 @@ def carrier_api():
                 services=[dict(name='Things', methods=methods)])
     yaml = {'type': 'google.api.Service', 'config_version': 3, 'name': 'lib.example.com',
             'publishing': {'method_settings': [{'selector': f'{PKG}.Things.CreateThing',
-                                                'auto_populated_fields': ['request_id', 'opt_request_id']}]}}
+                                                'auto_populated_fields': ['request_id', 'opt_request_id']},
+                                               # a request message from a dependency package (a plain protobuf class)
+                                               {'selector': f'{PKG}.Things.CheckDep', 'auto_populated_fields': ['request_id']}]}}
     return dict(files=[dep, main], yaml=yaml)
 
 
